@@ -92,13 +92,15 @@ def main():
             rp = os.path.join(VERIF, "replays", pid, safe(f["name"]) + ".json")
             os.makedirs(os.path.dirname(rp), exist_ok=True)
             f["replay_cmd"] = f"python3-vt check.py {pid} --replay {rp}"
-            confirmed = None
-            if f.get("concrete") is not None and not args.no_native:
-                try:
-                    res = run_native(pid, tier, seed, replay=None) if False else None
-                except Exception:
-                    res = None
             json.dump(f, open(rp, "w"), indent=1, default=str)
+            if f.get("concrete") is not None:
+                try:
+                    res = run_native(pid, tier, seed, replay=rp)
+                    f["native_replay"] = {"violations": res["violations"], "notes": res.get("notes", [])}
+                    f["replayed"] = bool(res["violations"])
+                except Exception as e:
+                    f["native_replay"] = {"error": str(e)[-600:]}
+                json.dump(f, open(rp, "w"), indent=1, default=str)
             suffix = "" if f.get("replayed") else " no-failing-input-found"
             violations.append((rp, suffix, f["name"]))
         for u in proof["undecided"]:
@@ -197,6 +199,8 @@ def replay(pid, path, tier, seed):
         print(f"VIOLATION property={pid} replay={path} no-failing-input-found")
         return 1
     res = run_native(pid, tier, seed, replay=path)
+    for nt in res.get("notes", []):
+        print("note:", nt)
     if res["violations"]:
         print(json.dumps(res["violations"][0], default=str)[:2000])
         print(f"VIOLATION property={pid} replay={path}")
